@@ -70,7 +70,8 @@ def pure_step(ctx):
     for rel, q, params in ((EU, 'euler', {'coord'}), (RK, 'rungekutta', {'coord'}), (CD, 'central_difference', {'coord'}), (ISM, 'ISMPath.step', {'self'}), (ISM, 'ISMPath.interpolate_path', {'self'})):
         n += 1
         fn = ctx.fn(rel, q)
-        muts, eff = effects.param_mutations(fn, params, summaries={'ratefxn': ('fresh',), 'fxn': ('fresh',), 'self.integratorfxn': ('fresh',), 'ISMPath': ('fresh',), 'CubicSpline': ('fresh',), 'aslist': ('fresh',),
+        # (what a user's rate function returns is not the integrator's to write into: it may be the argument itself (y' = y) or a buffer the function reuses)
+        muts, eff = effects.param_mutations(fn, params, summaries={'ratefxn': ('alias', (0,)), 'fxn': ('fresh',), 'self.integratorfxn': ('fresh',), 'ISMPath': ('fresh',), 'CubicSpline': ('fresh',), 'aslist': ('fresh',),
                                                                   '.grad_energy': ('fresh',), '.interpolate_path': ('fresh',)})
         ctx.ob('PURE-STEP', '%s::%s' % (rel, q), 'the coordinates passed in (%s) are not written to: the result is a new array, so the caller can take another step from the same point' % ', '.join(sorted(params)),
                not muts, '; '.join('%s at line %d' % (w, nd.lineno) for nd, r, w in muts), node=muts[0][0] if muts else fn, key='pure %s' % q)
@@ -87,8 +88,11 @@ def cdiff(ctx):
     x = symarray('x', (2, n))   # two points, three coordinates: leading shape is preserved
     sh = sp.Symbol('s', positive=True)
 
+    seen_shapes = []
+
     def f(c):
         c = np.asarray(c, dtype=object)
+        seen_shapes.append(c.shape)
         return np.einsum('i,...i->...', a, c) + np.einsum('ij,...i,...j->...', q, c, c) + np.einsum('ijk,...i,...j,...k->...', t, c, c, c)
     loc = CD + '::central_difference'
     try:
@@ -104,6 +108,8 @@ def cdiff(ctx):
     g = live[0].ret
     ok_shape = hasattr(g, 'shape') and tuple(g.shape) == (2, n)
     ctx.ob('CDIFF', loc, 'gradient has the shape of coord', ok_shape, 'shape %s' % (getattr(g, 'shape', None),), node=fn)
+    ctx.ob('CDIFF', loc, 'the function is only ever asked about coordinates of the shape of coord (an energy function written for one string of points is not handed a stack of strings)',
+           bool(seen_shapes) and all(sh_ == (2, n) for sh_ in seen_shapes), 'shapes passed: %s' % sorted(set(seen_shapes)), node=fn, key='cdiff argument shape')
     if not ok_shape:
         return
     bad0, bad1 = [], []
@@ -331,7 +337,10 @@ def relax_model(ctx):
         ev.globals = {'time': T()}
         try:
             r = [q for q in ev.run_fn(relax, [mkpath(0)], dict(relaxsteps=relaxsteps, climbsteps=climbsteps, timestep=sp.Integer(1), tolerance=tolerance, climbpoints=climbpoints, verbose=False)) if q.done == 'return']
-        except (Opaque, WouldRaise) as e:
+        except WouldRaise as e:
+            # the call certainly raises on this budget: a failed obligation, reported with the reason
+            return [('raises', str(e)[:160], None)], None, {}
+        except Opaque as e:
             raise AnalysisError('ISMPath.relax on the model path: %s' % e)
         ctx.need(len(r) == 1, 'ISMPath.relax does not reduce to one path')
         return calls, r[0].ret, paths
@@ -342,7 +351,7 @@ def relax_model(ctx):
                                        ('no budget at all', 0, 0, R(1), 1, [])):
         calls, ret, paths = scenario(rs, cs, tol, cp)
         got = [(k, ci) for k, ts, ci in calls]
-        ok = got == want and all(ts == 1 for k, ts, ci in calls) and ret is paths[len(want)]
+        ok = got == want and all(ts == 1 for k, ts, ci in calls) and ret is paths.get(len(want))
         ctx.ob('STRING-STEP', loc, '%s: relaxation steps do not climb, climbing steps pass the strict interior energy maxima of the relaxed string (at most `climbpoints`, end images never), each step starts from the path the '
                'previous one returned, a phase stops when the largest image displacement per unit time falls below the tolerance, and the last path is returned' % tag, bool(ok), 'steps taken %s' % got, node=relax, key='relax ' + tag)
 
